@@ -48,8 +48,110 @@ impl TableMgr {
 pub type MemLog = Rc<RefCell<Vec<String>>>;
 
 /// Wrapper around the bundled memory: forwards every call, logs it.
+/// A second, independent implementation of the memory trait (a user-supplied memory as the crate's documentation
+/// invites): one context per fragment id (no aliasing), first-in-first-out free list of `cap` buffers.
+pub struct ExactMem {
+    pub free: std::collections::VecDeque<Box<[u8]>>,
+    pub ctxs: Vec<(DecapContext, Box<[u8]>)>,
+    pub cap: usize,
+    pub min: usize,
+}
+impl ExactMem {
+    fn pos(&self, id: u8) -> Option<usize> {
+        self.ctxs.iter().position(|c| c.0.frag_id == id)
+    }
+}
+impl GseDecapMemory for ExactMem {
+    fn new(max_frag_id: usize, max_pdu_size: usize, _: usize, _: usize) -> Self {
+        ExactMem { free: Default::default(), ctxs: vec![], cap: max_frag_id + 2, min: max_pdu_size }
+    }
+    fn provision_storage(&mut self, storage: Box<[u8]>) -> Result<(), DecapMemoryError> {
+        if storage.len() < self.min {
+            return Err(DecapMemoryError::BufferTooSmall(storage));
+        }
+        if self.free.len() >= self.cap {
+            return Err(DecapMemoryError::StorageOverflow(storage));
+        }
+        self.free.push_back(storage);
+        Ok(())
+    }
+    fn new_pdu(&mut self) -> Result<Box<[u8]>, DecapMemoryError> {
+        self.free.pop_front().ok_or(DecapMemoryError::StorageUnderflow)
+    }
+    fn new_frag(&mut self, context: DecapContext) -> Result<(DecapContext, Box<[u8]>), DecapMemoryError> {
+        if let Some(i) = self.pos(context.frag_id) {
+            let (_, buf) = self.ctxs.remove(i);
+            return Ok((context, buf));
+        }
+        match self.free.pop_front() {
+            Some(b) => Ok((context, b)),
+            None => Err(DecapMemoryError::StorageUnderflow),
+        }
+    }
+    fn take_frag(&mut self, frag_id: u8) -> Result<(DecapContext, Box<[u8]>), DecapMemoryError> {
+        match self.pos(frag_id) {
+            Some(i) => Ok(self.ctxs.remove(i)),
+            None => Err(DecapMemoryError::UndefinedId),
+        }
+    }
+    fn save_frag(&mut self, context: (DecapContext, Box<[u8]>)) -> Result<(), DecapMemoryError> {
+        if self.pos(context.0.frag_id).is_some() {
+            self.free.push_back(context.1); // refused: the buffer stays the memory's
+            return Err(DecapMemoryError::MemoryCorrupted);
+        }
+        self.ctxs.push(context);
+        Ok(())
+    }
+}
+
+pub enum MemImpl {
+    Simple(SimpleGseMemory),
+    Exact(ExactMem),
+}
+impl MemImpl {
+    fn provision_storage(&mut self, s: Box<[u8]>) -> Result<(), DecapMemoryError> {
+        match self {
+            MemImpl::Simple(m) => m.provision_storage(s),
+            MemImpl::Exact(m) => m.provision_storage(s),
+        }
+    }
+    fn new_pdu(&mut self) -> Result<Box<[u8]>, DecapMemoryError> {
+        match self {
+            MemImpl::Simple(m) => m.new_pdu(),
+            MemImpl::Exact(m) => m.new_pdu(),
+        }
+    }
+    fn new_frag(&mut self, c: DecapContext) -> Result<(DecapContext, Box<[u8]>), DecapMemoryError> {
+        match self {
+            MemImpl::Simple(m) => m.new_frag(c),
+            MemImpl::Exact(m) => m.new_frag(c),
+        }
+    }
+    fn take_frag(&mut self, id: u8) -> Result<(DecapContext, Box<[u8]>), DecapMemoryError> {
+        match self {
+            MemImpl::Simple(m) => m.take_frag(id),
+            MemImpl::Exact(m) => m.take_frag(id),
+        }
+    }
+    fn save_frag(&mut self, c: (DecapContext, Box<[u8]>)) -> Result<(), DecapMemoryError> {
+        match self {
+            MemImpl::Simple(m) => m.save_frag(c),
+            MemImpl::Exact(m) => m.save_frag(c),
+        }
+    }
+}
+
+/// which memory the receivers of this run are built over (`--mem exact`)
+static MEM_EXACT: std::sync::atomic::AtomicBool = std::sync::atomic::AtomicBool::new(false);
+pub fn set_mem_exact(on: bool) {
+    MEM_EXACT.store(on, std::sync::atomic::Ordering::Relaxed)
+}
+pub fn mem_exact() -> bool {
+    MEM_EXACT.load(std::sync::atomic::Ordering::Relaxed)
+}
+
 pub struct RecMem {
-    pub inner: SimpleGseMemory,
+    pub inner: MemImpl,
     pub log: MemLog,
     /// fault injection (C08 "all points at which a memory operation behind the trait can fail"): the next
     /// call of the named trait method fails in a way the trait allows, without touching the inner memory.
@@ -100,7 +202,8 @@ pub fn jctxfields(c: &DecapContext) -> Obj {
 
 impl GseDecapMemory for RecMem {
     fn new(a: usize, b: usize, c: usize, d: usize) -> Self {
-        RecMem { inner: SimpleGseMemory::new(a, b, c, d), log: Rc::new(RefCell::new(vec![])), arm: None, stash: vec![] }
+        let inner = if mem_exact() { MemImpl::Exact(ExactMem::new(a, b, c, d)) } else { MemImpl::Simple(SimpleGseMemory::new(a, b, c, d)) };
+        RecMem { inner, log: Rc::new(RefCell::new(vec![])), arm: None, stash: vec![] }
     }
     fn provision_storage(&mut self, storage: Box<[u8]>) -> Result<(), DecapMemoryError> {
         let tag = storage.len();
@@ -223,7 +326,26 @@ fn hash_bytes(b: &[u8]) -> usize {
 /// Project the real memory: free buffers (drain a clone with new_pdu) and the
 /// context saved under each candidate id (take_frag on a *fresh* clone per id,
 /// so that a take that disturbs other slots cannot hide anything).
-pub fn project_mem(mem: &SimpleGseMemory, ids: &[u8]) -> String {
+pub fn project_mem(mem: &MemImpl, ids: &[u8]) -> String {
+    match mem {
+        MemImpl::Simple(m) => project_simple(m, ids),
+        MemImpl::Exact(m) => {
+            // the harness's own memory: read directly
+            let free: Vec<usize> = m.free.iter().map(|b| b.len()).collect();
+            let ctxs: Vec<String> = m
+                .ctxs
+                .iter()
+                .map(|(ctx, buf)| {
+                    let n = (ctx.pdu_len as usize).min(buf.len());
+                    jctxfields(ctx).num("tag", buf.len()).num("h", hash_bytes(&buf[..n])).end()
+                })
+                .collect();
+            Obj::new().boolean("ok", true).raw("free", &jnums(&free)).raw("ctxs", &jlist(&ctxs)).end()
+        }
+    }
+}
+
+pub fn project_simple(mem: &SimpleGseMemory, ids: &[u8]) -> String {
     let r = catch_unwind(AssertUnwindSafe(|| {
         let mut free = vec![];
         let mut c = mem.clone();
@@ -494,5 +616,6 @@ impl<C: CrcCalculator, M: MandatoryHeaderExtensionManager> Rx<C, M> {
 
 /// description of a receiver for the `begin` event
 pub fn jrxcfg(slots: usize, pdu_size: usize, mgr: &TableMgr) -> Obj {
-    Obj::new().num("slots", slots).num("pdu_size", pdu_size).raw("mgr", &mgr.json())
+    // over the alias-free memory every fragment id has a slot of its own
+    Obj::new().num("slots", if mem_exact() { 256 } else { slots }).num("pdu_size", pdu_size).raw("mgr", &mgr.json())
 }
